@@ -82,3 +82,32 @@ def compare(fa, fb, rtol=1e-8, atol=1e-10, scale_atol=True):
         if r > worst:
             worst, wname = r, k
     return worst, wname
+
+
+class Judge:
+    """Tolerant comparison with the ill-conditioning fallback of DESIGN 4.3: a mismatch above tolerance is a
+    violation only if it exceeds 100x the case's own replica-to-replica rounding noise (measured lazily by
+    `noise_fn() -> {name: value}` on inputs perturbed by 2^-50 relative)."""
+
+    def __init__(self, R, noise_fn):
+        self.R, self.noise_fn, self._noise = R, noise_fn, None
+
+    def noise(self, which):
+        if self._noise is None:
+            try:
+                self._noise = self.noise_fn() or {}
+            except Exception as e:
+                self.R.count('replica noise measurement failed: ' + type(e).__name__)
+                self._noise = {}
+        return float(self._noise.get(which, 0.0))
+
+    def __call__(self, monitor, value, tol, which, key, msg, **info):
+        if value <= tol:
+            self.R.ok(monitor)
+            return True
+        nz = self.noise(which)
+        if value <= 100 * nz:
+            self.R.undecided(monitor, 'ill-conditioned case (mismatch within 100x replica noise)')
+            return True
+        self.R.fail(monitor, key, msg + f' (replica noise {nz:.2e})', **info)
+        return False
